@@ -56,7 +56,7 @@ def expected_grid(convention, kind_obj):
     return dims, sizes
 
 
-def body_roundtrip(ctx, conv, kind, extras, perm, linear_name, wind_by):
+def body_roundtrip(ctx, conv, kind, extras, perm, linear_name, wind_by, coords=False):
     ds, convention = make_convention(conv)
     kind_obj = next(k for k in convention.grid_kinds if k.value == kind)
     gdims, gsizes = expected_grid(convention, kind_obj)
@@ -68,6 +68,17 @@ def body_roundtrip(ctx, conv, kind, extras, perm, linear_name, wind_by):
     shape = tuple(sizes[d] for d in dims)
     values = sym_array(ctx, shape)
     da = xarray.DataArray(values, dims=dims)
+    if linear_name in ('@g0', '@g1'):
+        # a linear dimension named like one of the grid dimensions it replaces
+        linear_name = gdims[0] if linear_name == '@g0' else gdims[-1]
+    if coords:
+        # coordinates as real variables carry them: one per dimension, one auxiliary over the grid, one scalar
+        cs = {d: (d, numpy.arange(sizes[d]) * 1.5 + 10) for d in dims}
+        cs['aux'] = (tuple(gdims), numpy.arange(size, dtype=float).reshape(gsizes))
+        cs['run'] = ((), 7)
+        if other_extra := [d for d in dims if d not in gdims]:
+            cs['label'] = (other_extra[0], numpy.arange(sizes[other_extra[0]]) + 100)
+        da = da.assign_coords(cs)
     ctx.note('layout', dict(conv=conv, kind=kind, dims=[str(d) for d in dims], shape=list(shape)))
 
     # the grid kind is inferred from the dimensions
@@ -261,6 +272,15 @@ def cases(tier):
                         p = ''.join(map(str, perm))
                         yield Case(f'roundtrip:{conv}:{kind}:x{ne}:p{p}:{ln}:{wb}', body_roundtrip,
                                    dict(conv=conv, kind=kind, extras=extras, perm=perm, linear_name=ln, wind_by=wb))
+                    if pi % (4 if q else 2) == 0 and ne <= 2:
+                        # variables that carry coordinates; linear dimension named like a grid dimension
+                        for (ln, wb) in ((None, 'default'), ('@g0', 'name'), ('@g1', 'name'), ('cells', 'axis')):
+                            if q and kind not in ('face', 'node') and ln is None:
+                                continue
+                            p = ''.join(map(str, perm))
+                            yield Case(f'roundtrip+coords:{conv}:{kind}:x{ne}:p{p}:{ln}:{wb}', body_roundtrip,
+                                       dict(conv=conv, kind=kind, extras=extras, perm=perm, linear_name=ln, wind_by=wb,
+                                            coords=True))
             for ne in range(0, max_extra + 1):
                 extras = EXTRA[:ne]
                 for pos in range(ne + 1):
